@@ -218,6 +218,15 @@ def witnesses():
     P.op("explain", P.option("S.X"), {"S": 5})
     witness("C11", "F10", P, "Option('S.X').explain({'S': 5}) fails with a raw TypeError, not an insufficient-information error",
             [err(0, innermost="TypeError")])
+    # F27 / C11
+    P = Prog()
+    nomatch = P.case(P.value("x"), [(P.fnvalue("eq", 0), P.value(None))], None)
+    inner = P.switch(P.option("K", bare=True), [("z", P.option("Q")), ("x", nomatch)], P.value(1))
+    m = P.map(inner, [("K", P.value(["z", "x"]))])
+    P.op("explain", m, {})
+    P.op("validate", m, {})
+    witness("C11", "F27", P, "Map over a switch on the mapped key, one element's explain fails: explain({}) lists nothing (static fallback) while validate({}) fails for the missing Q",
+            [ok(0, value={"$": "set", "v": []}), err(1, raises="KeyNotFoundError")])
     # F17 / C04
     P = Prog()
     P.raw_op(op="set_get", n=P.option("L.0"), o={"L": [1, 2]}, v=9)
